@@ -203,12 +203,13 @@ func init() {
 	register("C10", "other", func(c *Ctx) {
 		skeletonExplain(c, "C10 (type references respect the destination package): (a,b) decision tables of Var.packageQualifier and Registry.AddImport, extracted by abstract interpretation of their source on constant inputs: the qualifier is empty exactly for the destination package (vendor prefix stripped), otherwise the registered import's qualifier; AddImport registers nothing for the destination package and one import per canonical path otherwise; (e) from the interpretation of Mock over all destination modes {in place, explicit -pkg <src>, another package, <src>_test} x skip-ensure: the source package is imported iff the mock lives elsewhere and the self-check line is emitted, the self-check line is qualified through that import, with skip-ensure the file does not mention the source package (K-IMPORTS/skip-ensure) and every skeleton type-checks in its destination mode. Known finding D9 concerns how the destination path is computed (by package name, not path).")
 		destinationTables(c)
-		c.RunSkeletons(SkelOpts{Rules: []string{"G-DATA/imports", "G-DATA/src-qualifier", "G-DATA/pkgname", "K-IMPORTS", "K-DECLS/ensure", "K-TYPE"}, TypeErrIsOwn: true, Notes: []string{"G-RENDER"}})
+		c.Run.Floor("G-MOCK/qualifier-final", 1)
+		c.RunSkeletons(SkelOpts{Rules: []string{"G-DATA/imports", "G-DATA/src-qualifier", "G-DATA/pkgname", "K-IMPORTS", "K-DECLS/ensure", "K-TYPE", "G-MOCK/qualifier-final"}, TypeErrIsOwn: true, Notes: []string{"G-RENDER"}})
 		gen.CheckKinds(c.Run, c.Prog)
 		kindsTable(c)
 		gen.CheckDestKinds(c.Run, c.Prog)
-		// the qualifier of the self-check line is final only after the last registration
-		gen.CheckQualifierFinal(c.Run, c.Prog)
+		// the qualifier of the self-check line is final only after the last registration: G-MOCK/qualifier-final,
+		// read off the interpretation of Mock (engine M)
 	})
 	register("C11", "other", func(c *Ctx) {
 		skeletonExplain(c, "C11 (the import block is exact, canonical and conflict-free) — decided: (a) every import spec of every skeleton is of the form \"path\" or alias \"path\", exactly once per registered import, never dot or blank; aliases harvested from the source are stored only if the name exists and is neither \".\" nor \"_\" (go/cfg under those assumptions); the only other writers of Package.Alias assign uniqueName(...) inside conflict resolution; (b) every index into an import map uses a vendor-stripped key and a new import is stored under it; (c) AddImport is called only by the type walker and by Mock (sync iff some mock has a method, the source package iff needed: G-DATA/imports from the interpretation of Mock); import discovery covers every type constructor the printer prints (G-KINDS); (d) a new import starts with exactly the source file's alias for its canonical path and the conflict search dominates its registration, alias or not. NOT decided: uniqueness and well-formedness of the qualifiers after conflict resolution for every set of paths (value level), convergence (see C19).")
@@ -217,6 +218,7 @@ func init() {
 		gen.CheckKinds(c.Run, c.Prog)
 		kindsTable(c)
 		destinationTables(c)
-		c.RunSkeletons(SkelOpts{Rules: []string{"K-IMPORTS", "G-DATA/imports"}})
+		c.Run.Floor("G-MOCK/qualifier-final", 1)
+		c.RunSkeletons(SkelOpts{Rules: []string{"K-IMPORTS", "G-DATA/imports", "G-MOCK/qualifier-final"}})
 	})
 }
